@@ -19,6 +19,8 @@ def run(ctx: Context) -> None:
     ctx.rule('R19.3', "make_quiver: arrow positions are the (x, y) columns of face_centres, components are ravel(u), ravel(v) after checking equal dimensions and refusing leftover dimensions", floor=6)
     ctx.rule('R19.4', "animate_on_figure: frames are ravel(scalar)[:, mask] with the convention's mask on the last axis, limits come from those values, and frame k sets exactly row k", floor=4)
     ctx.rule('R19.5', "ravel gives linear index order whatever the variable's own dimension order: the flattened dimensions are the convention's grid_dimensions[kind] (shared with C03)", floor=1)
+    from .common import adopt_foundations as _adopt
+    _adopt(ctx, 'R19.6', ['geometry', 'order'], floor=60)
     ctx.assume("matplotlib PolyCollection pairs array[k] with verts[k]; Quiver pairs U[k], V[k] with X[k], Y[k]")
 
     from ..pattern import Matcher
@@ -178,17 +180,9 @@ def run(ctx: Context) -> None:
 
     # R19.5 shared with C03: ravel flattens the convention's dimensions in the convention's order
     from . import c03
-    sub = Context(p, ctx.prop, ctx.tier)
-    sub._flows, sub._cfgs, sub._types = ctx._flows, ctx._cfgs, ctx._types
-    try:
-        c03.run(sub)
-    except Exception as exc:
-        if type(exc).__name__ != 'AbortRules':
-            raise
-    for ob in sub.obligations:
-        if ob.rule == 'R03.1' and ('DimensionConvention.ravel' in ob.function or 'ravel_dimensions' in ob.function or 'move_dimensions_to_end' in ob.function):
-            ctx.obligations.append(type(ob)('R19.5', f"[{ob.rule}] {ob.text}", ob.site, ob.function, ob.construct, ob.ok, ob.detail))
-            ctx.instances['R19.5'] = ctx.instances.get('R19.5', 0) + 1
+    from .common import share_obligations
+    share_obligations(ctx, c03, {'R03.1'}, 'R19.5',
+                      only=lambda ob: 'DimensionConvention.ravel' in ob.function or 'ravel_dimensions' in ob.function or 'move_dimensions_to_end' in ob.function)
 
 
 # --------------------------------------------------------------------------- checker self-test
